@@ -1,5 +1,6 @@
 import LhasaV.Driver.OpsExtract
 import LhasaV.Lemmas.ExtractTree14
+import LhasaV.Lemmas.ExtractTreeOpt
 /-!
 op `xtree <opts> <root 0|1> <abs prefix hex> <entries> <archive hex>`: evaluates the HYPOTHESES of
 `Props.C06.run_tree_partial` on a generated archive and prints the tree its CONCLUSION promises.
@@ -46,6 +47,55 @@ def opTree : List String → Option String
         pathStr (fs0.cwd ++ p) ++ "=" ++ (match treeOf fs0.now fs0.umask es p with
           | some e => entStr fs0.now e | none => "none")))
       some s!"opts={b optsOk} wf={b wf} fuel={b fuel} den={b den} tree={tree}"
+  | _ => none
+
+/-!
+op `xtree2 <opts> <root 0|1> <abs prefix hex> <filters> <entries> <archive hex>`: the OPTION theorems of C06
+(`extract_selected`, `extract_relocated`, `extract_flattened`): decidable hypotheses evaluated, promised tree printed.
+  kind=sel   (wildcards, paths used, no w=): hyp = WellFormed ∧ ParentClosed (selected filters); tree = treeOf (selected entries)
+  kind=reloc (w=DIR, no wildcards, paths used): hyp = WellFormed ∧ DIR's components are names ∧ depth; tree below cwd/DIR, and the
+             components of DIR as `mkBase` makes them (the last one stamped `now`)
+  kind=flat  (option i, no w=): hyp = every entry EntryOk ∧ selected non-directory names pairwise distinct; tree = flatTreeOf
+-/
+def opTree2 : List String → Option String
+  | ["xtree2", opts, root, absp, filters, entries, hex] => do
+      let o ← parseOpts opts
+      let absp ← parseHex absp
+      let _arch ← parseHex hex
+      let fl ← (if filters == "-" then some [] else (filters.splitOn ",").mapM (fun f => (parseHex f).map (·.toList)))
+      let o := { o with filters := fl }
+      let es ← (if entries == "-" then some [] else (entries.splitOn ",").mapM parseEntry)
+      let fs0 : Fs.St := { root := root == "1", cwd := ["root".toUTF8.toList], absPrefix := absp.toList,
+                           ents := [(["root".toUTF8.toList], .dir 0o755 1000), (["outside".toUTF8.toList], .dir 0o755 1000),
+                                    (["outside".toUTF8.toList, "canary".toUTF8.toList], .file "canary".toUTF8.toList 0o644 1000)] }
+      let b := fun (x : Bool) => if x then "1" else "0"
+      let sel := es.filter (selected fl)
+      let listing := fun (items : List (Fs.Path × Option Fs.Ent)) =>
+        let arr := items.toArray.qsort (fun a b => pathStr a.1 < pathStr b.1)
+        ";".intercalate (arr.toList.map (fun x => pathStr x.1 ++ "=" ++ (match x.2 with | some e => entStr fs0.now e | none => "none")))
+      match o.extractPath, o.usePath with
+      | none, true =>
+          let hyp := decide (WellFormed es) && decide (ParentClosed (selected fl) es)
+          let items := sel.map (fun e => (fs0.cwd ++ e.path, treeOf fs0.now fs0.umask sel e.path))
+          some s!"kind=sel hyp={b hyp} tree={listing items}"
+      | some d, true =>
+          let ds := (Fs.splitPath d).filter (· ≠ [])
+          let hyp := decide (WellFormed es) && fl.isEmpty && decide (∀ c ∈ ds, Name c) &&
+                     decide (∀ e ∈ es, ds.length + e.path.length < 64) && !ds.isEmpty
+          let base := mkBase fs0 ds
+          let comps := (List.range ds.length).map (fun i =>
+            let q := fs0.cwd ++ ds.take (i + 1)
+            (q, if i + 1 == ds.length && !es.isEmpty then (match Fs.lookup base q with
+                  | some (.dir m _) => some (.dir m fs0.now) | x => x) else Fs.lookup base q))
+          let items := es.map (fun e => (fs0.cwd ++ ds ++ e.path, treeOf fs0.now fs0.umask es e.path))
+          some s!"kind=reloc hyp={b hyp} tree={listing (comps ++ items)}"
+      | none, false =>
+          let names := (es.filter (fun e => selected fl e && !e.isDir)).map Entry.namePart
+          let hyp := decide (∀ e ∈ es, EntryOk e) && decide names.Nodup
+          let items := (sel.filter (fun e => !e.isDir)).map (fun e =>
+            (fs0.cwd ++ [e.namePart], flatTreeOf fs0.now fs0.umask sel [e.namePart]))
+          some s!"kind=flat hyp={b hyp} tree={listing items}"
+      | some _, false => some "kind=flat-reloc hyp=0 tree="
   | _ => none
 
 end LhasaV.Driver
